@@ -115,6 +115,38 @@ package storage
 //@   ghostdef result == nil ==> $driverFailed == old($driverFailed)
 //@   ensures[closes-the-channel] trpls.#closed == 1 && trpls.#len >= old(trpls.#len)
 //@   ensures[sends-well-formed-values] forall k int :: {trpls.#out[k]} 0 <= k && k < trpls.#len ==> ite(k < old(trpls.#len), trpls.#out[k] == old(trpls.#out[k]), wfTriple(trpls.#out[k]))
+//@ func (this Graph) PredicatesForSubject
+//@   nobody
+//@   requires prds != nil && prds.#closed == 0
+//@   modifies $driverFailed, prds.#out, prds.#closed
+//@   ghostdef result != nil ==> $driverFailed
+//@   ghostdef result == nil ==> $driverFailed == old($driverFailed)
+//@   ensures[closes-the-channel] prds.#closed == 1 && prds.#len >= old(prds.#len)
+//@   ensures[sends-well-formed-values] forall k int :: {prds.#out[k]} 0 <= k && k < prds.#len ==> ite(k < old(prds.#len), prds.#out[k] == old(prds.#out[k]), prds.#out[k] != nil)
+//@ func (this Graph) PredicatesForObject
+//@   nobody
+//@   requires prds != nil && prds.#closed == 0
+//@   modifies $driverFailed, prds.#out, prds.#closed
+//@   ghostdef result != nil ==> $driverFailed
+//@   ghostdef result == nil ==> $driverFailed == old($driverFailed)
+//@   ensures[closes-the-channel] prds.#closed == 1 && prds.#len >= old(prds.#len)
+//@   ensures[sends-well-formed-values] forall k int :: {prds.#out[k]} 0 <= k && k < prds.#len ==> ite(k < old(prds.#len), prds.#out[k] == old(prds.#out[k]), prds.#out[k] != nil)
+//@ func (this Graph) TriplesForSubjectAndPredicate
+//@   nobody
+//@   requires trpls != nil && trpls.#closed == 0
+//@   modifies $driverFailed, trpls.#out, trpls.#closed
+//@   ghostdef result != nil ==> $driverFailed
+//@   ghostdef result == nil ==> $driverFailed == old($driverFailed)
+//@   ensures[closes-the-channel] trpls.#closed == 1 && trpls.#len >= old(trpls.#len)
+//@   ensures[sends-well-formed-values] forall k int :: {trpls.#out[k]} 0 <= k && k < trpls.#len ==> ite(k < old(trpls.#len), trpls.#out[k] == old(trpls.#out[k]), wfTriple(trpls.#out[k]))
+//@ func (this Graph) TriplesForPredicateAndObject
+//@   nobody
+//@   requires trpls != nil && trpls.#closed == 0
+//@   modifies $driverFailed, trpls.#out, trpls.#closed
+//@   ghostdef result != nil ==> $driverFailed
+//@   ghostdef result == nil ==> $driverFailed == old($driverFailed)
+//@   ensures[closes-the-channel] trpls.#closed == 1 && trpls.#len >= old(trpls.#len)
+//@   ensures[sends-well-formed-values] forall k int :: {trpls.#out[k]} 0 <= k && k < trpls.#len ==> ite(k < old(trpls.#len), trpls.#out[k] == old(trpls.#out[k]), wfTriple(trpls.#out[k]))
 //@ func (this Graph) Triples
 //@   nobody
 //@   requires trpls != nil && trpls.#closed == 0
